@@ -11,10 +11,14 @@ package c19
 // through the two-stage consumer styles of styles_test.go.
 
 import (
+	"flag"
 	"fmt"
+	"os"
 	"reflect"
 	"sort"
+	"strconv"
 	"strings"
+	"sync"
 	"testing"
 
 	hcl "Havoc/pkg/profile/yaotl"
@@ -83,6 +87,37 @@ type CaseA struct {
 	Plan    *cfggen.SplitP `json:"plan,omitempty"`
 	PDDepth int            `json:"pd_depth,omitempty"`
 	GoLater bool           `json:"go_later,omitempty"` // gohcl remain field: hcl.Body decoded by a second call (else struct-typed)
+	// SCALE dimension: which count of the configuration was inflated to a
+	// threshold-adjacent value (nil: an ordinary small case)
+	Scale *cfggen.ScaleS `json:"scale,omitempty"`
+}
+
+// scaleShare: one case in scaleShare is a scale case (VERIF_C19_SCALE=<dimension>
+// or =any makes every case one; for measuring and for looking at one dimension).
+const scaleShare = 40
+
+func scaleOpt() cfggen.ScaleOpt {
+	o := cfggen.ScaleQuick
+	if core.Tier() == "thorough" {
+		o = cfggen.ScaleThorough
+	}
+	if m, err := strconv.Atoi(os.Getenv("VERIF_C19_SCALE_MAX")); err == nil && m > 0 {
+		// (for measuring the cost of one dimension at one size)
+		for _, p := range []*int{&o.MaxBlocks, &o.MaxAttrs, &o.MaxFree, &o.MaxElems, &o.MaxLabels, &o.MaxFiles, &o.MaxDepth, &o.MaxVDepth, &o.MaxTDepth, &o.MaxDyn} {
+			if *p > m {
+				*p = m
+			}
+		}
+	}
+	return o
+}
+
+// sparseFor: layout noise of a large body is drawn at every k-th site only.
+func sparseFor(c *CaseA, body cfggen.RBody) int {
+	if c.Scale == nil {
+		return 0
+	}
+	return 1 + body.ItemCount()/100
 }
 
 // fileCounts: number of files a configuration is split into (2-9).
@@ -115,10 +150,10 @@ func filterBody(in *cfggen.BodyI, owned map[string]bool, want bool) cfggen.BodyI
 
 func renderFile(t *rapid.T, c *CaseA, name string, body cfggen.RBody, stats map[string]int) FileA {
 	if rapid.IntRange(0, 9).Draw(t, "json") >= 6 {
-		j := &cfggen.JSON{T: t, Noise: rapid.Bool().Draw(t, "jnoise"), Template: !c.NilCtx, Stats: stats}
+		j := &cfggen.JSON{T: t, Noise: rapid.Bool().Draw(t, "jnoise"), Template: !c.NilCtx, Stats: stats, Sparse: sparseFor(c, body)}
 		return FileA{Name: name + ".hcl.json", JSON: true, Src: j.File(body)}
 	}
-	n := &cfggen.Native{T: t, Stats: stats, Noise: rapid.IntRange(0, 9).Draw(t, "noise") >= 7}
+	n := &cfggen.Native{T: t, Stats: stats, Noise: rapid.IntRange(0, 9).Draw(t, "noise") >= 7, Sparse: sparseFor(c, body)}
 	return FileA{Name: name + ".hcl", Src: n.Body(body, 0)}
 }
 
@@ -141,13 +176,19 @@ func genLayers(t *rapid.T, c *CaseA, stats map[string]int) *LayeredA {
 	base := filterBody(&c.Inst, owned, false)
 	l := &LayeredA{Shape: rapid.SampledFrom(mergeShapes).Draw(t, "shape")}
 	k := rapid.SampledFrom(append([]int{1}, fileCounts...)).Draw(t, "kbase")
+	if c.Scale != nil && c.Scale.Files > 0 && rapid.Bool().Draw(t, "scale-kbase") {
+		k = c.Scale.Files
+	}
 	for i, p := range cfggen.Split(t, cfggen.PlainBody(&c.Schema, &base), k) {
 		l.Base = append(l.Base, renderFile(t, c, fmt.Sprintf("base%d", i), p, stats))
 	}
 	n := rapid.IntRange(2, 3).Draw(t, "noverlays")
 	for j := 0; j < n; j++ {
 		inst := c.Inst
-		if j > 0 {
+		if j > 0 && c.Scale == nil {
+			// (a scale case's schema may nest a hundred levels deep or declare a
+			// thousand attributes: all its overlays take their part from the case's
+			// own instance)
 			inst = cfggen.GenInstance(t, &c.Schema)
 		}
 		ov := filterBody(&inst, owned, true)
@@ -166,6 +207,17 @@ func genA(t *rapid.T) CaseA {
 	var c CaseA
 	c.Schema = cfggen.GenSchema(t, rapid.IntRange(1, 3).Draw(t, "depth"))
 	c.Inst = cfggen.GenInstance(t, &c.Schema)
+	forced := os.Getenv("VERIF_C19_SCALE")
+	if rapid.IntRange(0, scaleShare-1).Draw(t, "scale") == scaleShare-1 || forced != "" {
+		// SCALE: one count of the configuration is inflated to a threshold-adjacent
+		// value; everything below (fault, forms, plan, layers) then works on the
+		// large configuration
+		if forced == "any" {
+			forced = ""
+		}
+		sc := cfggen.GenScale(t, &c.Schema, &c.Inst, scaleOpt(), forced)
+		c.Scale = &sc
+	}
 	if rapid.IntRange(0, 3).Draw(t, "faulty") == 3 {
 		c.Inst, c.Fault = cfggen.InjectFault(t, &c.Schema, c.Inst)
 	}
@@ -177,6 +229,12 @@ func genA(t *rapid.T) CaseA {
 	c.Forms = append(c.Forms, FormA{Steps: []string{}, Files: []FileA{{Name: "ref.hcl", Src: (&cfggen.Native{T: t}).Body(ref, 0)}}})
 
 	nforms := rapid.IntRange(1, 5).Draw(t, "nforms")
+	if c.Scale != nil {
+		// a large configuration gets 2-3 forms: the first one is always a single
+		// JSON file, the second one carries the rewrite the dimension is about
+		// (split over N files, folded into dynamic blocks), the third is drawn freely
+		nforms = rapid.IntRange(2, 3).Draw(t, "scale-nforms")
+	}
 	ds := &cfggen.DynState{Stats: stats}
 	plan := cfggen.GenSplit(t, &c.Schema)
 	c.Plan = &plan
@@ -187,9 +245,32 @@ func genA(t *rapid.T) CaseA {
 		steps := map[string]bool{}
 		// 1. dynamic
 		var body cfggen.RBody
-		if !c.NilCtx && rapid.IntRange(0, 9).Draw(t, "dyn") >= 5 {
+		wantDyn, wantJSON, wantSplit := false, false, 0
+		if sc := c.Scale; sc != nil {
+			wantJSON = fi == 0
+			wantDyn = sc.Dyn != "" && fi <= 1
+			if sc.Files > 0 && fi == 1 {
+				wantSplit = sc.Files
+			}
+		}
+		if !c.NilCtx && (rapid.IntRange(0, 9).Draw(t, "dyn") >= 5 || wantDyn) {
 			ds.FreeRefs = rapid.Bool().Draw(t, "free-attribute-refs")
-			body = ds.BuildBody(t, &c.Schema, &c.Inst, 70)
+			pct := 70
+			ds.RunCap = 0
+			if wantDyn {
+				pct = 95
+				ds.RunCap = c.Scale.RunCap
+			}
+			body = ds.BuildBody(t, &c.Schema, &c.Inst, pct)
+			if c.Scale != nil {
+				nd, fe := cfggen.DynCounts(body, ds.Vars)
+				if b := cfggen.ScaleBucket(nd); b != "" {
+					stats["scale:dynamic-blocks:"+b]++
+				}
+				if b := cfggen.ScaleBucket(fe); b != "" {
+					stats["scale:for_each-elems:"+b]++
+				}
+			}
 			f.FreeRefs = cfggen.FreeRefs(body) > 0
 			if body.HasDyn() {
 				steps["dynamic"] = true
@@ -212,8 +293,11 @@ func genA(t *rapid.T) CaseA {
 		}
 		// 3. split
 		parts := []cfggen.RBody{body}
-		if rapid.IntRange(0, 9).Draw(t, "split") >= 6 {
+		if (rapid.IntRange(0, 9).Draw(t, "split") >= 6 || wantSplit > 0) && !wantJSON {
 			k := rapid.SampledFrom(fileCounts).Draw(t, "k")
+			if wantSplit > 0 {
+				k = wantSplit
+			}
 			parts = cfggen.Split(t, body, k)
 			steps["split"] = true
 			f.Merge = true
@@ -227,15 +311,15 @@ func genA(t *rapid.T) CaseA {
 		// 4. syntax + text-level rewrites per file
 		for pi, p := range parts {
 			var file FileA
-			if rapid.IntRange(0, 9).Draw(t, "json") >= 6 {
-				j := &cfggen.JSON{T: t, Noise: rapid.Bool().Draw(t, "jnoise"), Template: !c.NilCtx, Stats: stats}
+			if rapid.IntRange(0, 9).Draw(t, "json") >= 6 || wantJSON {
+				j := &cfggen.JSON{T: t, Noise: rapid.Bool().Draw(t, "jnoise"), Template: !c.NilCtx, Stats: stats, Sparse: sparseFor(&c, p)}
 				file = FileA{Name: fmt.Sprintf("f%d_%d.hcl.json", fi, pi), JSON: true, Src: j.File(p)}
 				steps["json"] = true
 				if j.Noise {
 					steps["json-layout"] = true
 				}
 			} else {
-				n := &cfggen.Native{T: t, Stats: stats}
+				n := &cfggen.Native{T: t, Stats: stats, Sparse: sparseFor(&c, p)}
 				if rapid.IntRange(0, 9).Draw(t, "noise") >= 5 {
 					n.Noise = true
 					n.CRLF = rapid.IntRange(0, 5).Draw(t, "crlf") == 5
@@ -258,7 +342,11 @@ func genA(t *rapid.T) CaseA {
 		sort.Strings(f.Steps)
 		c.Forms = append(c.Forms, f)
 	}
-	if rapid.IntRange(0, 9).Draw(t, "layered") >= 5 {
+	layeredFrom := 5
+	if c.Scale != nil {
+		layeredFrom = 8 // (layered configurations render and decode every overlay's whole text: a smaller share of the large cases)
+	}
+	if rapid.IntRange(0, 9).Draw(t, "layered") >= layeredFrom {
 		c.Layers = genLayers(t, &c, stats)
 	}
 	c.Vars = ds.Vars
@@ -696,6 +784,98 @@ func checkJust(c *CaseA, ref *outcome, outs []*outcome) *core.Violation {
 	return nil
 }
 
+// scaleLabels: what a scale case reached, measured on the case itself: the largest
+// counts of the instance, of the forms' files, and which rewrites / syntaxes /
+// instance kinds the large configuration went through.
+func scaleLabels(c *CaseA) []string {
+	if c.Scale == nil {
+		return nil
+	}
+	out := []string{"scale:dim:" + c.Scale.Dim}
+	add := func(what string, n int) {
+		if b := cfggen.ScaleBucket(n); b != "" {
+			out = append(out, "scale:"+what+":"+b)
+		}
+	}
+	sc := cfggen.CountScale(&c.Inst)
+	add("blocks", sc.Blocks)
+	add("attrs", sc.Attrs)
+	add("collections", sc.Collections)
+	add("elems", sc.Elems)
+	add("labels", sc.Labels)
+	add("block-depth", sc.BlockDepth)
+	add("value-depth", sc.ValueDepth)
+	add("string-bytes", sc.StringBytes)
+	files, bytes := 0, 0
+	steps := map[string]bool{}
+	count := func(fl []FileA) {
+		if len(fl) > files {
+			files = len(fl)
+		}
+		for _, f := range fl {
+			if len(f.Src) > bytes {
+				bytes = len(f.Src)
+			}
+		}
+	}
+	for i := range c.Forms {
+		count(c.Forms[i].Files)
+		for _, s := range c.Forms[i].Steps {
+			steps[s] = true
+		}
+	}
+	if c.Layers != nil {
+		count(c.Layers.Base)
+		steps["layered"] = true
+	}
+	add("files", files)
+	add("doc-KiB", bytes/1024)
+	for s := range steps {
+		out = append(out, "scale+step:"+s)
+	}
+	if c.Fault != "" {
+		out = append(out, "scale+instance:faulty")
+	} else {
+		out = append(out, "scale+instance:valid")
+	}
+	sort.Strings(out)
+	hist := append([]string{}, out...)
+	for _, s := range c.Stats {
+		// (dynamic blocks / for_each elements are counted on the render tree by the
+		// generator and reach the labels through c.Stats)
+		if strings.HasPrefix(s, "scale:") {
+			hist = append(hist, s)
+		}
+	}
+	noteScale(hist)
+	return out
+}
+
+// The evidence histogram keeps the most frequent labels only, and scale cases are
+// one case in scaleShare: their labels are also kept as an extra of the shard.
+var (
+	scaleMu   sync.Mutex
+	scaleHist = map[string]int{}
+)
+
+func noteScale(labels []string) {
+	scaleMu.Lock()
+	defer scaleMu.Unlock()
+	scaleHist["scale-cases"]++
+	for _, l := range labels {
+		scaleHist[l]++
+	}
+	cp := make(map[string]int, len(scaleHist))
+	for k, v := range scaleHist {
+		cp[k] = v
+	}
+	seed := "0"
+	if f := flag.Lookup("rapid.seed"); f != nil {
+		seed = f.Value.String()
+	}
+	core.SetExtra("scale_classes_shard_seed_"+seed, cp)
+}
+
 var rewriteSteps = map[string]bool{"json": true, "split": true, "dynamic": true, "shuffle": true, "noise": true, "format": true}
 
 func repeatedOrLabelled(b *cfggen.BodyI) bool {
@@ -879,7 +1059,11 @@ func classifyA(c CaseA) core.Class {
 		}
 	}
 	sib(&c.Inst)
+	if maxDepth > 3 {
+		maxDepth = 4 // (scale cases: the depth itself is in the scale:block-depth label)
+	}
 	cl.Labels = append(cl.Labels, fmt.Sprintf("nesting:%d", maxDepth))
+	cl.Labels = append(cl.Labels, scaleLabels(&c)...)
 	rl := repeatedOrLabelled(&c.Inst)
 	cl.NonTrivial = rl && maxRw >= 2
 	// the widest combination of this case
